@@ -226,6 +226,11 @@ func Changed(name string) bool {
 	return snaps[name] != render(reflect.ValueOf(snapRoots[name]), map[uintptr]bool{}, 0)
 }
 
+// Written reports whether any memory reachable from the snapshot root was
+// written at all, even with the value it already held (a race needs only the
+// access). Natively this cannot be observed; C12 replays run under -race instead.
+func Written(name string) bool { return false }
+
 // ChangedWhere names the writers found by the last Changed (diagnostics, symbolic only).
 func ChangedWhere() string { return "" }
 
